@@ -155,57 +155,66 @@ def run_graphs(scr, verdict, gen, binp, rows, repeats, compile_ids, stats, tag):
 USER_FILES = {"gr/notes.txt": "user notes\n", "gr/helper.go": "package gr\n\n// hand written\nfunc Helper() int { return 1 }\n", "README.md": "# mine\n"}
 
 
-def run_grammar(scr, verdict, binp, rows, stats, tag, with_items, with_resources):
-    """v2 only: items and resources of SchemaGrammar.tla in one manifest, generated twice afresh and once more over the
-    first output (regeneration), compiled and vetted."""
-    mod = new_module(scr, "v2", "mod-gram-" + tag)
+def run_grammar(scr, verdict, binp, rows, stats, tag, with_items, with_resources, gen="v2"):
+    """Items and resources of SchemaGrammar.tla in one manifest, generated twice afresh and once more over the first
+    output (regeneration), compiled and vetted.  The root generation has no includes and no custom typerefs by location:
+    those items are left out there."""
+    tag0 = tag
+    tag = tag if gen == "v2" else tag + "-root"
+    mod = new_module(scr, gen, "mod-gram-" + tag)
     root = "verifharness/gen"
+    if gen == "root":
+        rows = [x for x in rows if not (x["kind"] == "item" and (x["pos"] == "included" or "custom" in x["e"]))
+                and not (x["kind"] == "resource" and x["key"] == "custom")]
     m = grammar.grammar_manifest(rows, root, with_items=with_items, with_resources=with_resources)
+    if gen == "root":
+        m["inputDataTypes"] = [t for t in m["inputDataTypes"] if not list(t.values())[0].get("includes") and list(t.values())[0]["name"] != "CT"]
     mf = os.path.join(scr.path, "grammar-%s.json" % tag)
-    json.dump(m, open(mf, "w"))
+    json.dump(m if gen == "v2" else {"dataTypes": m["inputDataTypes"], "Resources": m["resources"]}, open(mf, "w"))
     outs = []
     for k in range(2):
         out = os.path.join(mod, "gen") if k == 0 else os.path.join(scr.sub("gram2-" + tag), "gen")
         os.makedirs(os.path.join(out, "gr"), exist_ok=True)
-        with open(os.path.join(out, grammar.CUSTOM_TYPEREF_FILE), "w") as f:
-            f.write(grammar.CUSTOM_TYPEREF_SRC)
+        if gen == "v2":
+            with open(os.path.join(out, grammar.CUSTOM_TYPEREF_FILE), "w") as f:
+                f.write(grammar.CUSTOM_TYPEREF_SRC)
         if k == 0:
             for p, c in USER_FILES.items():
                 with open(os.path.join(out, p), "w") as f:
                     f.write(c)
-        rc, log = generate(binp, "v2", mf, out, root)
+        rc, log = generate(binp, gen, mf, out, root)
         stats["generator_runs"] += 1
         if rc != 0:
-            verdict.add("C12/v2/grammar/generator-failed/" + tag, "the generator failed on the grammar manifest: " + log[-1500:], dict(manifest=tag))
+            verdict.add("C12/%s/grammar/" % gen + "generator-failed/" + tag, "the generator failed on the grammar manifest: " + log[-1500:], dict(manifest=tag))
             return
         outs.append(digest(out))
     own = lambda d: {k: v for k, v in d.items() if k.endswith(".gr.go") or k.endswith(".gr.json")}
     if own(outs[0]) != own(outs[1]):
         diff = sorted(set(own(outs[0]).items()) ^ set(own(outs[1]).items()))[:8]
-        verdict.add("C12/v2/grammar/nondeterministic/" + tag, "two fresh generator processes differ on: %s" % sorted(set(d[0] for d in diff)), dict(manifest=tag))
+        verdict.add("C12/%s/grammar/" % gen + "nondeterministic/" + tag, "two fresh generator processes differ on: %s" % sorted(set(d[0] for d in diff)), dict(manifest=tag))
     # regeneration over the existing output: same generated files, foreign files untouched (C20's last clause)
     out = os.path.join(mod, "gen")
-    rc, log = generate(binp, "v2", mf, out, root)
+    rc, log = generate(binp, gen, mf, out, root)
     stats["generator_runs"] += 1
     again = digest(out)
     if rc != 0:
-        verdict.add("C12/v2/regen/generator-failed/" + tag, "regenerating over an existing output failed: " + log[-1500:], dict(manifest=tag))
+        verdict.add("C12/%s/regen/" % gen + "generator-failed/" + tag, "regenerating over an existing output failed: " + log[-1500:], dict(manifest=tag))
         return
     if own(again) != own(outs[0]):
-        verdict.add("C12/v2/regen/differs/" + tag, "regenerating over an existing output gives different generated files", dict(manifest=tag))
-    for p, c in list(USER_FILES.items()) + [(grammar.CUSTOM_TYPEREF_FILE, grammar.CUSTOM_TYPEREF_SRC)]:
+        verdict.add("C12/%s/regen/" % gen + "differs/" + tag, "regenerating over an existing output gives different generated files", dict(manifest=tag))
+    for p, c in list(USER_FILES.items()) + ([(grammar.CUSTOM_TYPEREF_FILE, grammar.CUSTOM_TYPEREF_SRC)] if gen == "v2" else []):
         if not os.path.exists(os.path.join(out, p)) or open(os.path.join(out, p)).read() != c:
-            verdict.add("C12/v2/regen/foreign-file-touched/" + p, "the generator removed or changed %s, which it does not own" % p, dict(manifest=tag, file=p))
+            verdict.add("C12/%s/regen/" % gen + "foreign-file-touched/" + p, "the generator removed or changed %s, which it does not own" % p, dict(manifest=tag, file=p))
     stats["generated_files"] += len(own(again))
     # compile and type-check
     rc, bout = go_build(mod)
     stats["packages_compiled"] += sum(1 for r, ds, fs in os.walk(mod) if any(f.endswith(".go") for f in fs))
     if rc != 0:
-        report_compile(verdict, "v2", "grammar", bout, m, tag)
+        report_compile(verdict, gen, "grammar", bout, m, tag0)
     else:
         rc, vout = go_vet(mod)
         if rc != 0 and re.search(r"\.go:\d+:\d+: (?!.*(self-assignment|unreachable code|possible misuse))", vout):
-            report_compile(verdict, "v2", "grammar-vet", vout, m, tag)
+            report_compile(verdict, gen, "grammar-vet", vout, m, tag0)
     shutil.rmtree(mod, ignore_errors=True)
     return m
 
@@ -423,6 +432,10 @@ def run(tier, seed, replay):
     run_grammar(scr, verdict, bins["v2"], grows, stats, "resources", False, True)
     phases["grammar-resources"] = round(time.time() - t1, 1)
     t1 = time.time()
+    run_grammar(scr, verdict, bins["root"], grows, stats, "types", True, False, gen="root")
+    run_grammar(scr, verdict, bins["root"], grows, stats, "resources", False, True, gen="root")
+    phases["grammar-root"] = round(time.time() - t1, 1)
+    t1 = time.time()
     run_checked_in(scr, verdict, bins["v2"], stats)
     regen_layouts(scr, verdict, bins["v2"], "C12", stats)
     phases["checked-in"] = round(time.time() - t1, 1)
@@ -441,7 +454,7 @@ def run(tier, seed, replay):
         return code
     lib.write_evidence(PROP, tier, seed, cov, [
         "manifests are written directly in the generators' JSON input format; the Java spec parser (jar) is not exercised",
-        "root module: only data types (reference graphs) are generated, its resource generator is not driven",
+        "root module: same grammar minus includes and custom typerefs (the root generation predates both)",
         "type expressions up to nesting depth %d; records of up to 24 fields; one representative named type per kind" % (1 if tier == "quick" else 2),
         "behavioural equivalence of the checked-in bindings is decided by byte identity of regenerated files (stronger than API/encoding equivalence)",
     ], time.time() - t0, nv)
